@@ -150,7 +150,7 @@ def h_fronts(H):
     S4.explore(body4)
 
 
-@harness(PROPERTY, "fronts_2d", functions=["ibldsp.utils:fronts", "ibldsp.utils:rises"], clause="2-D inputs along either axis")
+@harness(PROPERTY, "fronts_2d", functions=["ibldsp.utils:fronts", "ibldsp.utils:rises"], replay=lambda vals, oid: replay_fronts2d(vals, oid), clause="2-D inputs along either axis")
 def h_fronts2d(H):
     for axis in (-1, 0):
         S = H.session(f"fronts2d.axis{axis}")
@@ -179,6 +179,28 @@ def h_fronts2d(H):
             rank = info["rank"]
             it.ctx.oblige(f"fronts2d.complete.{tag}", A.forall([i, j], lambda: z3.Implies(z3.And(inr(i, j), ev(i, j)), (lambda r: z3.And(r >= 0, r < m, ind.read((z3.IntVal(0), r)) == i, ind.read((z3.IntVal(1), r)) == j))(rank(*pos(i, j))))), "post")
         S.explore(body)
+
+
+def replay_fronts2d(vals, oid):
+    """native: fronts of 2-D arrays (lines as rows or as columns, events interleaved in time across lines): every returned (position, polarity) pair
+    is a change of that size at that position, and every change is returned once"""
+    rng = np.random.default_rng(2)
+    bad = []
+    for shape in ((4, 40), (40, 4), (16, 25), (1, 9), (9, 1)):
+        for _ in range(8):
+            st = np.cumsum(rng.random(shape) < 0.15, axis=(1 if shape[1] > shape[0] else 0)) % 2
+            x = st.astype(float) * rng.choice([1.0, 2.5])
+            for axis in (0, -1):
+                d = np.diff(x, axis=axis)
+                ind, pol = U.fronts(x, axis=axis, step=1)
+                w = np.array(np.where(np.abs(d) >= 1))
+                w[axis] += 1
+                want = {tuple(int(v) for v in w[:, k]) + (float(d[tuple(w[:, k] - (np.arange(2) == (axis % 2)))]),) for k in range(w.shape[1])}
+                ind = np.asarray(ind)
+                got = {tuple(int(v) for v in ind[:, k]) + (float(pol[k]),) for k in range(ind.shape[1])} if ind.ndim == 2 else None
+                if got is None or got != want or ind.shape[1] != len(want):
+                    bad.append((shape, axis, sorted(want - (got or set()))[:2], sorted((got or set()) - want)[:2]))
+    return {"failed": bool(bad), "examples": bad[:3]}
 
 
 def replay_rises2d(vals, oid):
@@ -324,6 +346,8 @@ def b_native(B):
     r1, r2 = replay_fronts({}, ""), replay_rises2d({}, "")
     B.case("fronts_rises_falls_any_amplitude_1d", not r1["failed"], detail=r1)
     B.case("rises_falls_any_amplitude_2d", not r2["failed"], detail=r2)
+    r3 = replay_fronts2d({}, "")
+    B.case("fronts_2d_position_polarity_pairs", not r3["failed"], detail=r3)
     rng = np.random.default_rng(B.seed)
     for t in range(60 if B.tier == "quick" else 600):
         n = int(rng.integers(2, 400))
@@ -448,12 +472,13 @@ def b_nidq(B):
             with spikeglx.Reader(f) as sr:
                 for kw in ({"threshold": 1.2}, {"threshold": 2.9}, {"threshold": 1.2, "floor_percentile": None}, {"threshold": 1.2}, {"threshold": 0.4},
                            {"threshold": 1.2, "floor_percentile": 0}, {"threshold": 0.6, "floor_percentile": False}, {"threshold": 2.2, "floor_percentile": 0}):
-                    for sl in (slice(0, ns), slice(0, ns)):
+                    for sl in (slice(0, ns), slice(0, ns), slice(57, 82), slice(58, 63), slice(50, 100)):      # whole recording twice, short chunks around a rising edge (the floor is the interpolated 10th percentile of the chunk)
                         got = sr.read_sync(sl, **kw)
                         raw_v = sr.read(sl, slice(nma, nma + na), sync=False)
                         base_ = np.percentile(raw_v, 10, axis=0) if kw.get("floor_percentile", 10) else 0          # 0 / False / None switch the floor removal off
                         want_a = ((raw_v - base_) >= kw["threshold"]).astype(got.dtype)
-                        if got.shape != (ns, 16 + na) or not np.array_equal(got[:, 16:], want_a) or not np.array_equal(got[:, :16], dig):
+                        n_ = sl.stop - sl.start
+                        if got.shape != (n_, 16 + na) or not np.array_equal(got[:, 16:], want_a) or not np.array_equal(got[:, :16], dig[sl]):
                             bad.append(("read_sync repeated with other options", kw))
             B.case(("nidq", na, nma), not bad, detail=bad[:4])
     finally:
